@@ -25,8 +25,12 @@ SPEC = {
     "build_comp": "decrypt",
     "gens": ["gen_decrypt"],
     "props": ["props/C12.v"],
-    "corr": ["corr/Decrypt_corr.v"],
-    "comps": [{"comp": "decrypt", "n_quick": 150, "n_thorough": 5000}, {"comp": "sysmon_C12", "e2e": True, "n_quick": 12, "n_thorough": 150}],
+    "corr": ["corr/Decrypt_corr.v", "corr/RelayE2E_corr.v"],
+    "comps": [{"comp": "decrypt", "n_quick": 150, "n_thorough": 5000}, {"comp": "sysmon_C12", "e2e": True, "n_quick": 12, "n_thorough": 150},
+              # the malicious-relay network of C15: its cross-path sessions deliver the same end-to-end frame relay-forwarded,
+              # re-wrapped and stripped-direct; code 2 there is C12's clause "a replayed copy (arriving directly or through a
+              # relay) is never delivered to the tun device"
+              {"comp": "relaynet15", "n_quick": 2, "n_thorough": 12, "e2e": True}],
     "trusted": ["model/Decrypt.v is a hand-written mirror of where ConnectionState.Decrypt / VerifyRelay take and release decryptLock, "
                 "tied by scripted interleavings on the real functions",
                 "model/Bits.v (the window) is tied to bits.go by the C11 correspondence",
